@@ -227,6 +227,19 @@ pub fn judge(case: &Case, l: &mut Local) {
             {
                 v(l, "1", "direct-display-differs", "-", format!("BasicHeader::parse({b1:?}) displays as {:?}", h.to_string()), case);
             }
+            // JSON route: the message read back from its own JSON publishes the same envelope, block for block
+            if let Ok(Ok(j)) = guard(|| m.json())
+                && let Ok(Ok(mj)) = guard(|| (ops.full_from_json)(&j))
+                && let Ok(yj) = guard(|| mj.to_mt_message())
+                && yj != y
+                && let Some(bj) = tok::split_blocks(&yj)
+            {
+                for id in ["1", "2", "3", "5"] {
+                    if get(&by, id) != get(&bj, id) {
+                        v(l, id, "json-route-differs", &cause, format!("block {id}: published as {:?} directly but as {:?} after a trip through the message's own JSON", get(&by, id), get(&bj, id)), case);
+                    }
+                }
+            }
             // second generation: the library's own output must be read back with the same envelope (a
             // spelling it writes but cannot read shows only here)
             match guard(|| (ops.parse_full)(&y)) {
@@ -341,6 +354,36 @@ pub fn run(cfg: &Config) -> i32 {
         let b5o = if s == 0 { None } else { Some(b5.as_str()) };
         let text = assemble(&block1(s as usize, false), &block2_input(mt, s as usize, 17), None, b4, b5o);
         cases.push(Case::WellFormed { label: format!("block5-subset:{s:08b}"), text });
+    }
+    // (2b) order as received: every ordered pair of block-5 tags and of block-3 tags, and the full sets reversed
+    // (the network writes MAC before CHK; the library's own order is another one)
+    {
+        let mut k = 0usize;
+        for a in B5_TAGS.iter() {
+            for b in B5_TAGS.iter() {
+                if a == b {
+                    continue;
+                }
+                k += 1;
+                let (mt, b4) = &bodies[k % nb];
+                let b5 = format!("{{{a}:{}}}{{{b}:{}}}", b5_value(a, k), b5_value(b, k + 1));
+                cases.push(Case::WellFormed { label: format!("block5-order:{a},{b}"), text: assemble(&block1(k, false), &block2_input(mt, k, 17), None, b4, Some(&b5)) });
+            }
+        }
+        let rev5: String = B5_TAGS.iter().rev().enumerate().map(|(i, t)| format!("{{{t}:{}}}", b5_value(t, i))).collect();
+        let (mt, b4) = &bodies[0];
+        cases.push(Case::WellFormed { label: "block5-order:all-reversed".into(), text: assemble(&block1(1, false), &block2_input(mt, 1, 17), None, b4, Some(&rev5)) });
+        for a in B3_TAGS.iter() {
+            for b in B3_TAGS.iter() {
+                if a == b {
+                    continue;
+                }
+                k += 1;
+                let (mt, b4) = &bodies[k % nb];
+                let b3 = format!("{{{a}:{}}}{{{b}:{}}}", b3_value(a, k), b3_value(b, k + 1));
+                cases.push(Case::WellFormed { label: format!("block3-order:{a},{b}"), text: assemble(&block1(k, false), &block2_input(mt, k, 17), Some(&b3), b4, None) });
+            }
+        }
     }
     // (3) header shapes x every type
     for (bi, (mt, b4)) in bodies.iter().enumerate() {
